@@ -7,6 +7,7 @@ import (
 	"path"
 	"sort"
 	"strings"
+	"time"
 
 	"github.com/goatcms/goatcore/filesystem"
 	"github.com/goatcms/goatcore/filesystem/filespace/diskfs"
@@ -247,11 +248,14 @@ func outSig(o FsOut) string {
 }
 
 func runC03(o *Out, rng *RNG, tier string, replay string) {
+	if os.Getenv("C03_CHILD") == "relroot" { // see c03RelRoot
+		c03RelRootChild(o, tier)
+	}
 	o.Imports = "From GC Require Import Common.Base Model.Paths Model.Fs Model.Views Model.ViewsCache Corr.FsCorr Corr.C03."
 	o.CaseType = "case"
 	o.CheckFn = "check"
 	o.ShardSize = 150
-	o.Rule = "view stacks of depth 1-3 over a populated backend (kinds: memfs child view, fshelper.SubFS, read-only mask, encrypted, cache-backed, disk child) x path arguments built from {name,'.','..',''} segments (exhaustive up to the tier's segment bound, with and without leading '/') x the 16 operations (both arguments of the copies; the other argument is an existing file and, for Copy / CopyDirectory, an existing directory of the view). L2: backend tree outside the view root unchanged (only ancestors of the root may appear as directories); answers independent of what lies outside the root, for EVERY stack: the same operation on a twin parent that agrees at and below the root and has other names and contents elsewhere (memfs and disk); the view handed out by a successful Filespace(p) is used (listed, written, removed through) and judged by both oracles against the root of the view it came from; look-alike sweep: siblings whose names extend the root's name (a/ab, a/b/a/b2, host root/root2) and the climbing arguments and Filespace arguments that name them; histories: one view across operations of its parent (copies across the view's boundary in both directions, removal and re-creation of the root), every operation of the view judged; nothing created, changed or deleted on the host above a disk root. L1 (memfs-rooted stacks without cache): result + root tree vs the Coq chain model; L1 resolve probe (all memfs-rooted stacks, caches included): the one backend file a successful WriteFile changes is where the model's path transformer resolves the argument to; L1 cache child views (NewMemCache on the root, then Filespace(..) one or more times): the operation's result and the root tree after Commit vs the model's sub_cache_step on the cache state. Non-trivial: the operation was not rejected; distinct by (stack, op, arguments)."
+	o.Rule = "view stacks of depth 1-3 over a populated backend (kinds: memfs child view, fshelper.SubFS, read-only mask, encrypted, cache-backed, disk child) x path arguments built from {name,'.','..',''} segments (exhaustive up to the tier's segment bound, with and without leading '/') x the 16 operations (both arguments of the copies; the other argument is an existing file and, for Copy / CopyDirectory, an existing directory of the view). L2: backend tree outside the view root unchanged (only ancestors of the root may appear as directories); answers independent of what lies outside the root, for EVERY stack: the same operation on a twin parent that agrees at and below the root and has other names and contents elsewhere (memfs and disk); the view handed out by a successful Filespace(p) is used (listed, written, removed through) and judged by both oracles against the root of the view it came from; look-alike sweep: siblings whose names extend the root's name (a/ab, a/b/a/b2, host root/root2) and the climbing arguments and Filespace arguments that name them; histories: one view across operations of its parent (copies across the view's boundary in both directions, removal and re-creation of the root), every operation of the view judged; the same histories, alias histories (every copy operation across the boundary of the view in both directions, then each side overwrites / truncates / copies over / removes its node) and lonely-root histories (the parent removes every sibling of the root and of its ancestors, the view empties and refills itself) through every rooted stack on a DISK filespace and on memfs: host tree (walked with package os) outside the root unchanged after every operation of the view, answers of the view (recursive listing and contents) unchanged after every operation of the parent whose arguments all lie outside the root; relative roots (child process): disk filespaces created from 17 spellings of one root in three working directories, stacks built before / after the process moves to a directory where the same relative path names a decoy tree / nothing, stale $PWD, all 16 operations: host outside the root unchanged, same answer and same subtree as the view created from the absolute root on an identical tree; nothing created, changed or deleted on the host above a disk root. L1 (memfs-rooted stacks without cache): result + root tree vs the Coq chain model; L1 resolve probe (all memfs-rooted stacks, caches included): the one backend file a successful WriteFile changes is where the model's path transformer resolves the argument to; L1 cache child views (NewMemCache on the root, then Filespace(..) one or more times): the operation's result and the root tree after Commit vs the model's sub_cache_step on the cache state. Non-trivial: the operation was not rejected; distinct by (stack, op, arguments)."
 	maxSeg := 3
 	if tier == "thorough" {
 		maxSeg = 4
@@ -300,7 +304,11 @@ func runC03(o *Out, rng *RNG, tier string, replay string) {
 	}
 	// look: the backend also holds the look-alike siblings of the view roots (c03Look); such runs are
 	// judged by the oracles only (no Coq case)
+	only5 := os.Getenv("C03_PART") == "round5" && replay == "" // development aid: the probes of c03_round5.go only
 	runOne := func(ks []Ctor, op FsOp, emitL1 bool, look bool) {
+		if only5 {
+			return
+		}
 		total++
 		if look {
 			emitL1 = false
@@ -469,6 +477,9 @@ func runC03(o *Out, rng *RNG, tier string, replay string) {
 	// histories: ONE view that lives across operations of its parent; every operation of the view is
 	// judged by the confinement oracle (backend walk before / after), operations of the parent are not
 	runHistory := func(ks []Ctor, steps []histStep, tag string) {
+		if only5 {
+			return
+		}
 		total++
 		ents := c03SeedEnts(true)
 		root, _ := memfs.NewFilespace()
@@ -534,6 +545,9 @@ func runC03(o *Out, rng *RNG, tier string, replay string) {
 	hostDir, hostWalk := "", []WalkEnt(nil)
 	twinDirs := map[int]string{}
 	runDisk := func(depth int, op FsOp) {
+		if only5 {
+			return
+		}
 		caseNo++
 		base, hostBefore := hostDir, hostWalk
 		hostDir, hostWalk = "", nil
@@ -633,6 +647,10 @@ func runC03(o *Out, rng *RNG, tier string, replay string) {
 				ViewRoot []string   `json:"view_root"`
 				Look     bool       `json:"look"`
 				History  []histStep `json:"history"`
+				HistBack string     `json:"hist_backend"`
+				Probe    string     `json:"probe"`
+				CfgIndex int        `json:"cfg_index"`
+				SpIndex  int        `json:"sp_index"`
 			} `json:"case"`
 		}
 		must(json.Unmarshal(b, &rp))
@@ -651,11 +669,18 @@ func runC03(o *Out, rng *RNG, tier string, replay string) {
 			return op
 		}
 		op := thaw(rp.Case.Op)
-		if len(rp.Case.History) > 0 {
+		if rp.Case.Probe == "relative-root" {
+			b, _ := json.Marshal(relOnly{rp.Case.CfgIndex, rp.Case.SpIndex, op.Kind, op.P, op.Q})
+			c03RelRoot(o, 0, tier, tmp, string(b))
+		} else if len(rp.Case.History) > 0 {
 			for i := range rp.Case.History {
 				rp.Case.History[i].Op = thaw(rp.Case.History[i].Op)
 			}
-			runHistory(rp.Case.Stack, rp.Case.History, "replay")
+			if rp.Case.HistBack != "" {
+				(&c03Hist{o: o, tmp: tmp}).run(rp.Case.HistBack == "disk", rp.Case.Stack, rp.Case.History, "replay")
+			} else {
+				runHistory(rp.Case.Stack, rp.Case.History, "replay")
+			}
 		} else if rp.Case.Backend == "disk" {
 			runDisk(len(rp.Case.ViewRoot), op)
 		} else {
@@ -858,6 +883,45 @@ func runC03(o *Out, rng *RNG, tier string, replay string) {
 		}
 		runDisk(depth, mkOp(kind, p, q))
 	}
+	// fifth round (c03_round5.go). Histories over two views of one backend on the DISK filespace too,
+	// through every rooted stack: crossing, alias (a copy across the boundary, then each side works on
+	// its node) and lonely-root histories, then random ones; the alias and lonely-root histories on
+	// the memory backend as well
+	scratch := c03Scratch(tmp)
+	defer os.RemoveAll(scratch)
+	t5 := time.Now()
+	h5 := &c03Hist{o: o, tmp: scratch}
+	for _, ks := range rooted {
+		vroot, _ := viewRoot(ks)
+		ents := c03SeedEnts(true)
+		for hi, h := range crossingHistories(ents, vroot, mkOp) {
+			h5.run(true, ks, h, fmt.Sprintf("crossing%d", hi))
+		}
+		for hi, h := range aliasHistories(ents, vroot, mkOp) {
+			h5.run(true, ks, h, fmt.Sprintf("alias%d", hi))
+			h5.run(false, ks, h, fmt.Sprintf("alias%d", hi))
+		}
+		for hi, h := range lonelyHistories(ents, vroot, mkOp) {
+			h5.run(true, ks, h, fmt.Sprintf("lonely%d", hi))
+			h5.run(false, ks, h, fmt.Sprintf("lonely%d", hi))
+		}
+	}
+	nHist5 := 250
+	if tier == "thorough" {
+		nHist5 = 3000
+	}
+	for i := 0; i < nHist5; i++ {
+		r := rng.Fork()
+		ks := rooted[r.Intn(len(rooted))]
+		vroot, _ := viewRoot(ks)
+		h5.run(true, ks, randomHistory(r, vroot, kinds, mkOp), "random")
+	}
+	o.Extra["history_runs_round5"] = h5.n
+	o.Extra["history_round5_s"] = time.Since(t5).Seconds()
+	t5 = time.Now()
+	// relative roots and a working directory that changes between creation and use (child process)
+	c03RelRoot(o, rng.Next(), tier, scratch, "")
+	o.Extra["relative_root_s"] = time.Since(t5).Seconds()
 }
 
 func mustDisk(dir string) filesystem.Filespace {
